@@ -65,6 +65,16 @@ def quantize_via(entry, x, qtype, axis, gs):
         feats = x.shape[-1] if x.ndim >= 2 else x.numel()
         batch = (x if x.ndim >= 2 else x.reshape(1, -1)).detach()
         m = QLinear.from_module(nn.Linear(feats, 2, bias=False).to(x.dtype), weights=O.QTALL["qint8"], activations=qtype)
+        if x.numel() % 3 == 0:
+            # a static input buffer refilled in place (the very same tensor object served an earlier batch of another range, to
+            # another module): the scale is that of its CURRENT contents
+            buf = torch.empty_like(batch)
+            buf.copy_(batch * 0.02 if float(batch.abs().max()) > 0 else batch + 1)
+            other = QLinear.from_module(nn.Linear(feats, 1, bias=False).to(x.dtype), weights=O.QTALL["qint8"], activations=O.QT8[["qint8", "qfloat8_e4m3fn"][x.numel() % 2]])
+            with torch.no_grad(), Calibration(streamline=False):
+                other(buf)
+            buf.copy_(batch)
+            batch = buf
         with torch.no_grad(), Calibration(streamline=False):
             m(batch)
             if x.numel() % 2:
